@@ -439,6 +439,10 @@ def direct_registries(rng, tier: str):
     n = Node(1, 17, "2.0")
     n.children[3] = Child(4, 6, values={1: "v"})
     regs.append(("child key != child id", {1: n}))
+    # the largest registries there can be: every node id 0-255 / all but one / the assignable ids 1-254 plus the gateway
+    regs.append(("full 0-255", {i: Node(i, 17, "2.0") for i in range(256)}))
+    regs.append(("ids 0-254", {i: Node(i, 17, "2.0") for i in range(255)}))
+    regs.append(("ids 1-254", {i: Node(i, 17, "2.0") for i in range(1, 255)}))
     k = 300 if tier == "quick" else 1500
     ints = [0, 1, -1, 17, 18, 255, 256, -6, BIG, -BIG, 2 ** 63, 2 ** 64 + 1]
     for _ in range(k):
